@@ -15,8 +15,8 @@ Decided clauses:
     (`Editor.valid`, `History.used/cursor`, `Autocompletion.autocompleted`: every exit of every `&mut self` method must
     leave them boundary-formed); the tokenizer's in-place result is discharged by its extracted transducer (every byte
     >= 0x80 is emitted exactly once, in order; only ASCII bytes are dropped or inserted); `from_u32_unchecked` is C17.B.
-Not decided: that sub-slice indices produced by the scalar-counting helpers are character boundaries (argued from
-U2 and C17's counting-loop structure).
+The sub-slice indices produced by the scalar-counting helpers are character boundaries by U2 and C17.D (imported: the
+helpers' loops step their counters, and `common_prefix_len` snaps its result, exactly where the decoder completes a scalar).
 """
 import os
 import sys
@@ -31,6 +31,7 @@ from specs import utf8 as spec  # noqa: E402
 
 LEVEL = "other"
 IMPORTS = [
+    ("C17", ("C17.counting",), "U4 takes the results of `char_byte_index` / `common_prefix_len` for positions between two scalars: their loops must step / snap exactly where the scalar decoder completes a character"),
     ("C14", ("C14.reset", "C14.atomic"), "after the in-place tokenisation the editor's length no longer describes well-formed text: a reset must precede every exit, or a later echo / Enter hands out a stale tail cut inside a character"),
 ]
 
